@@ -6,10 +6,7 @@ From M17 Require Import Bits ConstsViterbi ImplViterbi SpecConv LemmasVit_DP.
 Import ListNotations.
 Local Open Scope Z_scope.
 
-(** * the 16-state shift-register trellis *)
-Definition nx16 (s : nat) (b : bool) : nat := ((2 * s + (if b then 1 else 0)) mod 16)%nat.
-Definition pv16 (s' : nat) (d : bool) : nat := (s' / 2 + (if d then 8 else 0))%nat.
-Definition inb16 (s' : nat) : bool := Nat.odd s'.
+(** * the 16-state shift-register trellis (definitions nx16/pv16/inb16/out1/out2/st_of are in SpecConv.v) *)
 Definition pick16 (tb : tiebreak) (s : nat) (a0 a1 : Z) : bool :=
   gt_tb (if inb16 s then tb_d1 tb else tb_d0 tb) a0 a1.
 
@@ -35,13 +32,6 @@ Notation forward16 tb := (forward 16 pv16 inb16 (pick16 tb)).
 Notation traceR16 := (traceR pv16 inb16).
 Notation run16 := (run nx16).
 Notation pcost16 := (pcost nx16).
-
-(** * the encoder outputs as functions of the trellis state (bit i of the state = input bit i+1 steps ago) *)
-Definition out1 (s : nat) (b : bool) : bool := xorb b (xorb (Nat.testbit s 2) (Nat.testbit s 3)).
-Definition out2 (s : nat) (b : bool) : bool :=
-  xorb b (xorb (Nat.testbit s 0) (xorb (Nat.testbit s 1) (Nat.testbit s 3))).
-Definition b2nat (b : bool) : nat := if b then 1%nat else 0%nat.
-Definition st_of (d1 d2 d3 d4 : bool) : nat := (b2nat d1 + 2 * b2nat d2 + 4 * b2nat d3 + 8 * b2nat d4)%nat.
 
 Lemma st_of_lt d1 d2 d3 d4 : (st_of d1 d2 d3 d4 < 16)%nat.
 Proof. destruct d1, d2, d3, d4; cbv; lia. Qed.
